@@ -5,9 +5,10 @@ import tm_util as T
 
 MANIFEST = {
     "text": "Coq theorems over an executable model of WithGlobalTx / begin / commitOrRollback / the Commit and Rollback "
-            "retry loops over the backoff (C04_decision, C04_decision_complete, C04_retry_bound, C04_retry_only_on_transport_failure, "
-            "C04_result_truthful, C04_cancel_surfaces, C04_not_initiator, C04_terminates; for all callback outcomes, coordinator "
-            "scripts, retry settings, cancellation points and entry contexts), with the propagation switch and the role switch "
+            "retry loops over the backoff (C04_decision, C04_decision_complete, C04_retry, C04_result_truthful, "
+            "C04_nil_sound_partial/_refuted, C04_surfaces, C04_cancel_surfaces, C04_not_initiator, C04_begin_failed, "
+            "C04_terminates, C04_retry0_diverges_refuted; for all callback outcomes, coordinator scripts, retry settings incl. 0, "
+            "cancellation points and entry contexts), with the propagation switch, the role switch and the save/restore "
             "REGENERATED from pkg/tm/transaction_executor.go on every run; the model is tied to the code by driving the real "
             "tm.WithGlobalTx against a scripted coordinator (exhaustive over outcome x begin reply x second-phase script x retry "
             "group x cancellation point, plus a seeded stream) and comparing the request log, what the callback sees and the "
